@@ -375,15 +375,15 @@ pub mod bounds {
     /// number of calls whose operand exceeded the documented precondition
     pub static EXCEEDED: [AtomicU64; SITES] = [Z; SITES];
 
-    /// Exclusive limits (even limb, odd limb) per site = floor(2^(26+b)), floor(2^(25+b)) for
+    /// Exclusive limits (even limb, odd limb) per site = floor(2^(26+b)) + 1, floor(2^(25+b)) + 1 for
     /// the documented b of the kernel (u32 lanes cap at 2^32); IFMA: 2^52 for multiplier
     /// inputs, the 16p constants for negate_lazy.
     pub const LIMITS: [(u64, u64); SITES] = [
-        (379625062, 189812531),   // AVX2 mul lhs   b < 2.5
-        (225720125, 112860062),   // AVX2 mul rhs   b < 1.75
-        (189812531, 94906265),    // AVX2 square    b < 1.5
-        (134124453, 67062226),    // AVX2 negate_lazy b < 0.999
-        (67575639, 33787819),     // AVX2 diff_sum  b < 0.01
+        (379625063, 189812532),   // AVX2 mul lhs   b < 2.5
+        (225726413, 112863207),   // AVX2 mul rhs   b < 1.75
+        (189812532, 94906266),    // AVX2 square    b < 1.5
+        (134124728, 67062364),    // AVX2 negate_lazy b < 0.999
+        (67575644, 33787822),     // AVX2 diff_sum  b < 0.01
         (1073741824, 536870912),  // AVX2 neg       b < 4.0
         (4294967296, 4294967296), // AVX2 mul consts: any u32 lane (no documented precondition)
         (4294967296, 4294967296), // AVX2 reduce: any u32 lane
